@@ -309,7 +309,6 @@ type SkipRename struct {
 	A     int32 `parquet:"-"`
 	B     int32 `parquet:"renamed"`
 	c     int64
-	D     string `parquet:"-,"`
 	e     string
 	F     *int32 `parquet:"-"`
 	G     int64  `parquet:",optional"`
@@ -327,6 +326,13 @@ type SkipRename struct {
 		R int8  `parquet:"-"`
 		S *int32
 	}
+}
+
+// a column named "-"
+type DashName struct {
+	A int32  `parquet:"-"`
+	D string `parquet:"-,"`
+	J int8   `parquet:"-"`
 }
 
 // field ids
@@ -350,7 +356,6 @@ type PtrChains struct {
 
 type PtrSlices struct {
 	E *[]int32
-	F *[]string `parquet:"f,list"`
 	G []*In
 	H []*In `parquet:"h,list"`
 	I *[]In
@@ -478,6 +483,7 @@ func catalogue2() []*cat {
 		mk[EncodingsOpt]("EncodingsOpt"),
 		mk[Codecs]("Codecs"),
 		mk[SkipRename]("SkipRename", noDeep, nodeGen),
+		mk[DashName]("DashName", noDeep),
 		mk[FieldIDs]("FieldIDs"),
 		mk[PtrChains]("PtrChains"),
 		mk[PtrSlices]("PtrSlices"),
